@@ -57,6 +57,33 @@
 (* of SyncMachine (C14: members of one protocol run enter and leave every  *)
 (* state at the same blocks -- here: chain time does not advance while a   *)
 (* prompt member still has a step of the current window to take).          *)
+(*                                                                         *)
+(* What only the composition shows (see the invariants at the end):        *)
+(*  - A member whose publication SUCCEEDS (it submitted, found the group   *)
+(*    registered, or saw somebody else's submission) never looks at the    *)
+(*    accepted result: it keeps its own key and operator list.  That this  *)
+(*    is the chain's decision (KeepOnlyAsChainDecided) follows from the    *)
+(*    support gate being a majority (C13) -- two different results cannot  *)
+(*    both gather it -- as long as nobody signs two results; against an    *)
+(*    equivocating member it needs the agreement of GJKR (C01):            *)
+(*    Neg_Agreement.cfg is refuted only with Equivocate.                   *)
+(*  - A relay request for a group that was accepted a moment ago finds     *)
+(*    nodes that have not registered it yet: they only forward and never   *)
+(*    sign (IsInGroup is evaluated once, at the event).  The prompt model  *)
+(*    therefore assumes the chain does not select a group whose result     *)
+(*    period is still running (RequestRelay); NoTimeoutWithQuorum and the  *)
+(*    liveness properties hold under that assumption only.                 *)
+(*  - ResumeSigningIfEligible does not tell the deduplicator: a node that  *)
+(*    restarts during a request and then receives the request's event      *)
+(*    signs twice for it (SigningStartsBounded is 2, not 1).               *)
+(*                                                                         *)
+(* Configurations: MC_Quick (no faults), MC_DupDkg / MC_DupRelay (duplicate*)
+(* and stale deliveries), MC_Stop (one stop/restart), MC_BadDkg /          *)
+(* MC_BadRelay (one faulty operator: deviant views, equivocation, lost     *)
+(* messages, crashes), MC_aabc (4 seats, an operator with two), MC_Live    *)
+(* (FairSpec), Sim_abc / Sim_aabc (simulation: 2 rounds, 2 requests, all   *)
+(* faults), Neg_* (one mechanism switched off: TLC must refute the named   *)
+(* property), Trace_abc / Trace_aabc (validation of recorded runs).        *)
 (***************************************************************************)
 EXTENDS Integers, Sequences, FiniteSets, TLC, SequencesExt
 
